@@ -37,6 +37,10 @@ CHECKS = {
          "Exploration: the ordered sequence of (marker, arguments) host calls of each generated program equals the sequence obtained by left-to-right, short-circuit, guard-order evaluation in the reference interpreter.",
          "Trusts the reference interpreter's evaluation order, written from the property statement.",
          "DESIGN.md §4 C08"),
+ "C14": ("random constant/function reference graphs over 1-3 modules in random declaration order, initialisers tagged through a host effect marker; invariants over the compile-time log (once, dependency order, empty on rejection) + values vs a graph model",
+         "Exploration: generated reference graphs (acyclic, with an injected cycle, or with a transitive context use); the host-call log produced during compile must contain each constant's tag exactly once and after its dependencies (closed through functions); cyclic/context graphs must be rejected before anything is evaluated.",
+         "Graphs of at most 14 items; function-only recursion discarded.",
+         "DESIGN.md §4 C14"),
  "C15": ("model-based stateful testing: operation histories (one chunk per operation, shrunk as a sequence) over aliased list handles, issued through the Rust List API or compiled script functions, compared step by step with a shared-vector model; tracked element accounting",
          "Exploration: random histories of up to 60 operations for 8 element types incl. zero-sized and drop-tracked ones; every result, the operands of concat and the number of live tracked elements are compared with the model after each step.",
          "Single-threaded; capacity only checked as >= len; Rust-side contains/index on transformed element types excluded while C15-F2 is open.",
